@@ -128,7 +128,7 @@ STRENGTHENED = {
  "S-C14-2": "wrapper words the library never builds (one gate repeated, identity padding) - used by every circuit-level check",
  "S-C15-2": "circuit families built through Identity placeholders and replace_op",
  "S-C16-2": "isomorph requests close to n! / |Aut|",
- "S-C19-2": "update_hof driven directly with synthetic populations incl. near ties (new clause HofUpdateRule)",
+ "S-C19-2": "update_hof driven directly with synthetic populations incl. near ties (clauses HofSorted / HofFromKnown / BestKept on one update)",
  "S-C20-2": "wrapper order runs also on the Choi state after a Phase gate (generating rows with a Y)",
  "S-C02-2": "disjoint unions of connected 2-4 vertex blocks (n = 4..8) as targets",
  "S-C03-2": "6-8 vertex graphs, half of them chosen so that a cut block has different real and GF(2) rank",
